@@ -532,7 +532,8 @@ class StmtMixin(CallMixin):
     # ------------------------------------------------------------------ nested defs
     def s_FunctionDef(self, s):
         key = self.C.key + '.<locals>.' + s.name
-        self.st.env[s.name] = V(PY, py=('closure', key, s))
+        f = self.fresh_obj('function', 'closure_' + s.name)     # a function object with its own identity
+        self.st.env[s.name] = V(obj('Handler'), f.term, py=('closure', key, s))
 
     def s_AsyncFunctionDef(self, s):
         self.s_FunctionDef(s)
